@@ -51,10 +51,15 @@ TRIVIA = {
     # a trivia rule whose body produces a pair and can then still fail (sp matches, "." does not)
     "ws_pairs": (("sp", "$", S(" ")), ("WHITESPACE", "_", ("seq", (R("sp"), S(".")))),),
     # a COMMENT whose body holds a predicate that the skip pass cannot turn into a substring search (EOI in the choice)
+    # a COMMENT that starts with what WHITESPACE matches: pest skips WHITESPACE* ~ (COMMENT ~ WHITESPACE*)*, so COMMENT is only tried
+    # once WHITESPACE no longer matches
+    "both_overlap": (("WHITESPACE", "_", S(" ")), ("COMMENT", "_", ("seq", (S(" "), S("#"))))),
+    # a COMMENT whose body calls a non-atomic rule: implicit rules are skipped inside an implicit rule (re-entrance)
+    "cm_nonatomic": (("cin", "!", ("seq", (S("a"), ("opt", S("a"))))), ("COMMENT", "_", ("seq", (S("#"), R("cin"), S("!"))))),
     "cm_pred": (("COMMENT", "_", ("seq", (S("#"), ("star", ("grp", ("seq", (("not", ("grp", ("alt", (S("!"), R("EOI"))))), R("ANY")))))))),),
 }
 TRIVIA_SIGMA = {
-    "none": "", "ws": " ", "ws_loud": " ", "cm2": "#!", "both": " #!", "ws_choice": " \t", "cm1": "#", "both_loud": " #", "ws_overlap": "", "cm_pred": "#!", "ws_pairs": " .",
+    "none": "", "ws": " ", "ws_loud": " ", "cm2": "#!", "both": " #!", "ws_choice": " \t", "cm1": "#", "both_loud": " #", "ws_overlap": "", "cm_pred": "#!", "ws_pairs": " .", "both_overlap": " #", "cm_nonatomic": "#!",
 }
 
 
